@@ -89,7 +89,7 @@ def netmapHashKey : Bytes := alphabet_netmapKey_bytes                      -- "n
 def containerHashKey : Bytes := netmap_containerContractKey_bytes          -- "containerScriptHash"
 def balanceHashKey : Bytes := netmap_balanceContractKey_bytes              -- "balanceScriptHash"
 def innerRingKey : Bytes := [105, 110, 110, 101, 114, 114, 105, 110, 103]  -- "innerring"
-def accPrefix : Nat := balance_accPrefix.toNat                             -- 'a'
+def accPrefix : Nat := balance_accPrefix_bytes.headD 0                             -- 'a'
 def cnrPrefix : Nat := container_containerKeyPrefix.toNat                  -- 'x'
 def ownPrefix : Nat := container_ownerKeyPrefix.toNat                      -- 'o'
 
